@@ -1660,3 +1660,67 @@ V(id='c01-ctor-tuple-raw-stored-unguarded', prop='C01', file='mpmath/ctx_mp_pyth
   old="                if (not man) and exp:\n                    # inf or nan\n                    v._mpf_ = val\n                else:",
   new="                if not man:\n                    v._mpf_ = val\n                else:",
   expect='fire:E-R6:__new__')
+
+# ---------------------------------------------------------------- C39 -------
+V(id='c39-isint-exp-strict', prop='C39', file='mpmath/ctx_mp_python.py',
+  old="            return bool((man and exp >= 0) or xval == fzero)", new="            return bool((man and exp > 0) or xval == fzero)",
+  expect='fire:N-R1:isint')
+V(id='c39-isnpint-sign-dropped', prop='C39', file='mpmath/ctx_mp.py',
+  old="            return sign and exp >= 0", new="            return exp >= 0",
+  expect='fire:N-R1:isnpint')
+V(id='c39-isnormal-complex-zero-real', prop='C39', file='mpmath/ctx_mp_python.py',
+  old="            if re == fzero: return im_normal\n", new="",
+  expect='fire:N-R1:isnormal')
+V(id='c39-isinf-only-positive', prop='C39', file='mpmath/ctx_mp_python.py',
+  old="            return x._mpf_ in (finf, fninf)", new="            return x._mpf_ == finf",
+  expect='fire:N-R1:isinf')
+V(id='c39-isnan-complex-real-part-only', prop='C39', file='mpmath/ctx_mp.py',
+  old="            return fnan in x._mpc_", new="            return x._mpc_[0] == fnan",
+  expect='fire:N-R1:isnan')
+V(id='c39-isint-no-int-branch', prop='C39', file='mpmath/ctx_mp_python.py',
+  old="        if isinstance(x, rational.mpq):\n            p, q = x._mpq_\n            return p % q == 0\n", new="",
+  expect='fire:N-R1:isint')
+V(id='c39-isint-mpq-benign', prop='C39', file='mpmath/ctx_mp_python.py',
+  old="            return p % q == 0", new="            return q == 1 or not p",
+  expect='silent')
+V(id='c39-isint-gaussian-ignores-imag', prop='C39', file='mpmath/ctx_mp_python.py',
+  old="                return re_isint and im_isint", new="                return re_isint",
+  expect='fire:N-R1:isint')
+V(id='c39-mag-complex-no-plus-one', prop='C39', file='mpmath/ctx_mp_python.py',
+  old="            return 1+max(ctx._mpf_mag(r), ctx._mpf_mag(i))", new="            return max(ctx._mpf_mag(r), ctx._mpf_mag(i))",
+  expect='fire:N-R2:mag')
+V(id='c39-mag-real-one-low', prop='C39', file='mpmath/ctx_mp_python.py',
+  old="        if man:\n            return exp+bc\n        if x == fzero:\n            return ctx.ninf",
+  new="        if man:\n            return exp+bc-1\n        if x == fzero:\n            return ctx.ninf",
+  expect='fire:N-R2:mag')
+V(id='c39-mag-zero-finite', prop='C39', file='mpmath/ctx_mp_python.py',
+  old="        if x == fzero:\n            return ctx.ninf\n        if x == finf or x == fninf:",
+  new="        if x == fzero:\n            return 0\n        if x == finf or x == fninf:",
+  expect='fire:N-R2:mag')
+V(id='c39-mag-real-one-high-breaks-complex', prop='C39', file='mpmath/ctx_mp_python.py',
+  old="        if man:\n            return exp+bc\n        if x == fzero:\n            return ctx.ninf",
+  new="        if man:\n            return 1+exp+bc\n        if x == fzero:\n            return ctx.ninf",
+  expect='fire:N-R2:mag')   # fine for reals (still within 2 of optimal) but 1+max(...) is then 3 above
+V(id='c39-mag-real-benign-reordered', prop='C39', file='mpmath/ctx_mp_python.py',
+  old="        if man:\n            return exp+bc\n        if x == fzero:\n            return ctx.ninf",
+  new="        if man:\n            return bc+exp\n        if x == fzero:\n            return ctx.ninf",
+  expect='silent')
+V(id='c39-isnormal-benign-rewrite', prop='C39', file='mpmath/ctx_mp_python.py',
+  old="            return bool(x._mpf_[1])\n        if hasattr(x, \"_mpc_\"):\n            re, im = x._mpc_\n            re_normal",
+  new="            sign, man, exp, bc = x._mpf_\n            return man != 0\n        if hasattr(x, \"_mpc_\"):\n            re, im = x._mpc_\n            re_normal",
+  expect='silent')
+V(id='c39-frexp-off-by-one', prop='C39', file='mpmath/libmp/libmpf.py',
+  old="    return mpf_shift(x, -bc-exp), bc+exp", new="    return mpf_shift(x, -bc-exp+1), bc+exp-1",
+  expect='fire:N-R3:frexp')
+V(id='c39-ldexp-shift-sign', prop='C39', file='mpmath/libmp/libmpf.py',
+  old="    if not man:\n        return s\n    return sign, man, exp+n, bc", new="    if not man:\n        return s\n    return sign, man, exp-n, bc",
+  expect='fire:N-R3:ldexp')
+V(id='c39-mag-int-off', prop='C39', file='mpmath/ctx_mp_python.py',
+  old="            if x:\n                return bitcount(abs(x))", new="            if x:\n                return bitcount(abs(x))-1",
+  expect='fire:N-R5:mag')
+V(id='c39-mag-mpq-off', prop='C39', file='mpmath/ctx_mp_python.py',
+  old="                return 1 + bitcount(abs(p)) - bitcount(q)", new="                return bitcount(abs(p)) - bitcount(q)",
+  expect='fire:N-R5:mag')
+V(id='c39-mpf-bool-inverted', prop='C39', file='mpmath/ctx_mp_python.py',
+  old="    def __nonzero__(s): return s._mpf_ != fzero", new="    def __nonzero__(s): return s._mpf_ == fzero",
+  expect='fire:N-R4:__nonzero__')
